@@ -1100,12 +1100,15 @@ pub fn lex_cases(o: &mut Outcome, rng: &mut Rng, thorough: bool) {
     let max = if thorough { 6 } else { 5 };
     let mut layer: Vec<String> = vec!["0".into(), "1".into()];
     let mut all: Vec<String> = layer.clone();
+    // the full product up to length 4, a seeded third above (every third text from a seeded offset: the count is fixed)
+    let offset = rng.below(3);
+    let mut idx = 0usize;
     for len in 2..=max {
         let mut next = vec![];
         for s in &layer {
             for c in alpha {
-                // the full product up to length 4, a seeded third above
-                if len > 4 && !rng.chance(1, 3) {
+                idx += 1;
+                if len > 4 && (idx + offset) % 3 != 0 {
                     continue;
                 }
                 next.push(format!("{}{}", s, c));
